@@ -250,6 +250,22 @@ func (L *Lin) term(e *E) {
 			L.leE(e, u.Len(e.Args[0]), 0)
 		case strings.HasPrefix(name, "math/bits.OnesCount"):
 			L.leE(zero, e, 0)
+		case name == "slices.Index" || name == "slices.IndexFunc" || name == "strings.IndexFunc" || name == "strings.LastIndexFunc" || name == "bytes.IndexFunc":
+			// -1 or a valid position
+			L.leE(u.Int(-1), e, 0)
+			L.leE(e, u.Len(e.Args[0]), -1)
+		case name == "builtin.min" && len(e.Args) >= 2:
+			for _, a := range e.Args {
+				if isIntLike(a) {
+					L.leE(e, a, 0)
+				}
+			}
+		case name == "builtin.max" && len(e.Args) >= 2:
+			for _, a := range e.Args {
+				if isIntLike(a) {
+					L.leE(a, e, 0)
+				}
+			}
 		}
 	case "extract":
 		// n of an io.Reader.Read(b): 0 <= n <= len(b)
